@@ -720,3 +720,17 @@ Proof.
   - reflexivity.
   - now exists (out s), r.
 Qed.
+
+(** * A concrete instance (shared subformula, negative leaf, cache hit) *)
+Definition ex_fm : fm :=
+  FIff (FAnd [FVar 1; FVar (-2)]) (FOr [FAnd [FVar 1; FVar (-2)]; FNot (FVar 3); FAnd []]).
+
+Lemma ex_tseitin :
+  (forall z, In z (leaves ex_fm) -> z <> 0 /\ Z.abs z < 4) /\
+  tseitin ex_fm 4 =
+    ([[-1; 2; 4]; [1; -4]; [-2; -4]; [3; 5]; [-3; -5]; [6]; [4; 5; 6; -7]; [-4; 7]; [-5; 7]; [-6; 7];
+      [4; 7; 8]; [-4; -7; 8]; [4; -7; -8]; [-4; 7; -8]; [8]], 9).
+Proof.
+  split; [|vm_compute; reflexivity].
+  intros z Hz. cbn in Hz. repeat (destruct Hz as [<-|Hz]; [split; [discriminate|reflexivity]|]). destruct Hz.
+Qed.
